@@ -60,8 +60,8 @@ class NodeRef:
         if name == 'callback':
             f.has_cb = z3.Store(f.has_cb, k, z3.BoolVal(val is not None))
             f.writes.append(('callback', self.k, val))
-        elif name == 'validator':
-            f.writes.append(('validator', self.k, val))
+        elif name in ('validator', 'extra_param'):
+            f.writes.append((name, self.k, val))
         else:
             raise Unsupported(f'PrefixTreeNode.{name} assignment')
 
